@@ -51,7 +51,8 @@ def rnd_tree(rng, depth):
     if r < 0.91: return ("map", [(rnd_tree(rng, depth - 1), rnd_tree(rng, depth - 1)) for _ in range(rng.randint(1, 2))])
     if r < 0.94: return ("un", rng.choice(["!", "-", "-", "not", "+", "AND", "OR"] if rng.random() < 0.4 else ["!", "-"]), rnd_tree(rng, depth - 1))
     if r < 0.96: return ("post", rnd_tree(rng, depth - 1), rng.choice(["++", "--"]))
-    return ("bin", rng.choice(["=", "+="]) if rng.random() < 0.6 else rng.choice(SETTERS), ("ref", rng.choice(["v", "w"])), rnd_tree(rng, depth - 1))
+    # the target may be a name bound to a context function: reading it is a call (which may fail), the assignment then re-binds it
+    return ("bin", rng.choice(["=", "+="]) if rng.random() < 0.6 else rng.choice(SETTERS), ("ref", rng.choice(["v", "w", "v", "w"] + FN)), rnd_tree(rng, depth - 1))
 
 class P:
     prop = "C07"
